@@ -40,6 +40,59 @@ REGRESS = [
 ]
 
 
+KF3_WITNESSES = [
+    ("TypeScript", "function w(c) {\n  const v = c ? f(x) : { a: 1 };\n  return v;\n}\n", "f"),
+    ("TypeScript", "function w(c) {\n  switch (c) {\n    case q(1): {\n      x = 1;\n    }\n  }\n}\n", "q"),
+]
+
+
+def _kf3_unit(code, unit):
+    """the reported unit starts at `name ( ... )` directly followed by ':' and its statement has a '?'
+    or the keyword `case` before the name"""
+    import re
+    name, sl, sc = unit[0], unit[1], unit[2]
+    lines = code.split("\n")
+    if sl - 1 >= len(lines):
+        return False
+    off = sum(len(l) + 1 for l in lines[:sl - 1]) + sc - 1
+    m = re.compile(r"(?:function\s+)?" + re.escape(name) + r"\s*\(").match(code, off)
+    if not m:
+        return False
+    depth, i = 1, m.end()
+    while i < len(code) and depth:
+        depth += {"(": 1, ")": -1}.get(code[i], 0)
+        i += 1
+    rest = code[i:].lstrip()
+    before = re.split(r"[;{}]", code[:off])[-1]
+    return rest.startswith(":") and ("?" in before or re.search(r"\bcase\b", before) is not None)
+
+
+def matches_known(k, failure):
+    if k.get("id") != "KF3":
+        return False
+    inp = failure.get("input") or {}
+    obs, req = failure.get("observed"), failure.get("required")
+    if inp.get("language") != "TypeScript" or not isinstance(obs, list) or not isinstance(req, list):
+        return False
+    try:
+        starts = {(r[0], r[1], r[2]) for r in req}
+        extra = [o for o in obs if (o[0], o[1], o[2]) not in starts]
+        missing = [r for r in req if (r[0], r[1], r[2]) not in {(o[0], o[1], o[2]) for o in obs}]
+    except Exception:
+        return False
+    return bool(extra) and not missing and all(_kf3_unit(inp.get("code", ""), o) for o in extra)
+
+
+def replay_known(k):
+    if k.get("id") != "KF3":
+        return False
+    for (lang, code, name) in KF3_WITNESSES:
+        d = sr.decode_scan(sr.real_scan(lang, code))
+        if d and any(m[0] == name for m in d[0]):
+            return True
+    return False
+
+
 def gen_cases(ctx):
     cases = []
     for (lang, text, o) in scan_streams.canonical(ctx, ctx.pick(300, 5000), "c01"):
